@@ -20,6 +20,9 @@ DECLINED = ["'picks some other running stream when one exists' beyond the reject
 ASSUMPTIONS = ["C14 for the unit re-association performed by ABTI_thread_set_associated_pool"]
 RULES_DOC = dict(common.SHARED_DOC)
 RULES_DOC["R6"] = "= C12.R4: revive clears every pending request (a migration request that was never served does not survive into the revived run)"
+RULES_DOC["X4"] = common.X4_DOC
+RULES_DOC["R7"] = "= C06.R1/R3/R4: a unit that migrates inside a switch is counted on the right pool before and after (the migration target can be joined)"
+RULES_DOC["R8"] = "migrate_to_sched / migrate_to_xstream reject a unit that already is in ANY pool of the target scheduler: the comparison with the unit's pool sits inside a loop over the scheduler's pools (sibling agreement)"
 RULES_DOC.update({
     "R1": "thread_migrate_to_pool: target pool stored before REQ_MIGRATE is set; nothing set on the error path",
     "R2": "handle_request_migrate: set_associated_pool once -> callback (<=1, only if registered, with the unit's handle and the registered argument) -> unset REQ_MIGRATE; error paths do nothing else",
@@ -352,7 +355,32 @@ def rule_R4(P, rep):
     rep.need(n >= 1, "ABT_thread_migrate: no candidate path")
 
 
+def rule_R8(P, rep):
+    from abtverif import ctrldep
+    sig = {}
+    for fn in ("ABT_thread_migrate_to_sched", "ABT_thread_migrate_to_xstream"):
+        F = P.fn(fn, "src/thread.c")
+        found = False
+        for bid, B in F.blocks.items():
+            if B.tc is None:
+                continue
+            aj, at = cfg.cond_atom(F, B.tc, True)
+            lab, flip = canon.cond(F, aj)
+            if "ABTI_thread::p_pool" not in lab or "==" not in lab:
+                continue
+            # is this comparison evaluated once per pool of the scheduler?
+            heads = [a for a, k in ctrldep.closure(F, bid) if F.blocks[a].tk in ("ForStmt", "WhileStmt", "DoStmt") and F.blocks[a].tc is not None
+                     and "num_pools" in canon.cond(F, cfg.cond_atom(F, F.blocks[a].tc, True)[0])[0]]
+            if heads:
+                found = True
+        sig[fn] = found
+        rep.ob("R8", "%s compares the unit's pool with every pool of the target scheduler" % fn, found,
+               "no comparison with ABTI_thread::p_pool inside a loop bounded by num_pools", loc="%s:%d" % (F.file, F.line),
+               site="%s/all-pools" % fn)
+
+
 def run(P, rep, tier):
+    common.rule_X4(P, rep)
     common.run_shared(P, rep, which=("X2",))
     rule_R1(P, rep)
     rule_R2(P, rep)
@@ -361,3 +389,6 @@ def run(P, rep, tier):
     C01._import(rep, P, C01.rule_R3, "R5")
     C01._import(rep, P, C01.rule_R5, "R5")
     common.borrow(rep, P, C12.rule_R4, "R6")
+    common.borrow(rep, P, C06.rule_R1_R3_R4, "R7")
+    common.borrow(rep, P, C06.rule_R2, "R7")
+    rule_R8(P, rep)
